@@ -144,7 +144,7 @@ pub fn run(cfg: &Cfg, rep: &mut Rep) {
     let w = World::new(crate::model::dynm::NAIF);
     let mut r = Rng::new(cfg.seed, 0x1500 + sh as u64);
     let lats: Vec<Vec<i128>> = SCALES.iter().map(|s| gen::reading_lattice(*s, &w.leap)).collect();
-    let nrand = cfg.budget(40_000);
+    let nrand = cfg.budget(250_000);
     for k in 0..nrand {
         let si = r.below(9) as usize;
         let ss = SCALES[si];
